@@ -1,0 +1,46 @@
+//go:build verif
+
+// Contracts for package numeric: Morton bit interleaving (read by /verif/gocv; comment-only effect
+// with the verif tag off, apart from the ghost lemma functions, which are never called).
+
+package numeric
+
+// ---------------------------------------------------------------------------
+// C18: the point encoding interleaves the two 32-bit scaled coordinates and gets each of them back
+// ---------------------------------------------------------------------------
+
+// bit k of the low half of v1 is bit 2k of the result, bit k of the low half of v2 is bit 2k+1
+// (stated through the inverse below: Deinterleave picks the even bits)
+//@ func Interleave
+//@   props C18
+//@   mode bv
+
+//@ func Deinterleave
+//@   props C18
+//@   mode bv
+//@   ensures result <= 4294967295
+
+// Round trip: both coordinates come back exactly (their low 32 bits: scaled coordinates are below
+// 2^32), for all 2^128 input pairs.
+//@ func verifLemmaInterleaveRoundTrip
+//@   props C18
+//@   mode bv
+//@   ensures true
+func verifLemmaInterleaveRoundTrip(a, b uint64) {
+	h := Interleave(a, b)
+	verifAssert(Deinterleave(h) == a&0xFFFFFFFF)
+	verifAssert(Deinterleave(h>>1) == b&0xFFFFFFFF)
+}
+
+// Order: the interleaved code of a pair of 32-bit values is monotone in each coordinate when the
+// other is fixed (the cell subdivision of the range searcher relies on it).
+//@ func verifLemmaInterleaveMonotone
+//@   props C18
+//@   mode bv
+//@   ensures true
+func verifLemmaInterleaveMonotone(a1, a2, b uint64) {
+	if a1 <= 0xFFFFFFFF && a2 <= 0xFFFFFFFF && b <= 0xFFFFFFFF && a1 < a2 {
+		verifAssert(Interleave(a1, b) < Interleave(a2, b))
+		verifAssert(Interleave(b, a1) < Interleave(b, a2))
+	}
+}
